@@ -621,67 +621,7 @@ func finishC09(r *vk.Run, bound, nsc int) {
 }
 
 // foldRace reads the result of the free-running -race pass (run before this binary by run.sh).
-func foldRace(r *vk.Run) {
-	if os.Getenv("VERIF_SHARD") != "" || r.Replay != "" {
-		return
-	}
-	b, err := os.ReadFile(os.Getenv("VERIF_RACE_LOG"))
-	if err != nil {
-		r.Set("race_pass", "not run")
-		return
-	}
-	log := string(b)
-	n := strings.Count(log, "WARNING: DATA RACE")
-	r.Set("race_pass_reports", n)
-	if i := strings.Index(log, "RACE-PASS rounds"); i >= 0 {
-		r.Set("race_pass", strings.TrimSpace(strings.SplitN(log[i:], "\n", 2)[0]))
-	} else {
-		r.Set("race_pass", "did not complete")
-	}
-	ignored := 0
-	for _, rep := range strings.Split(log, "WARNING: DATA RACE")[1:] {
-		// the two racing accesses: first non-runtime frame of each of the two stacks. A race
-		// between two accesses that are both in harness code is the harness's, not cesium's.
-		var tops []string
-		want := false
-		for _, l := range strings.Split(rep, "\n") {
-			t := strings.TrimSpace(l)
-			if strings.Contains(t, " at 0x") && strings.Contains(t, "by goroutine") {
-				want = true
-				continue
-			}
-			if want && strings.Contains(t, "(") && !strings.HasPrefix(t, "/") && !strings.HasPrefix(t, "runtime.") && !strings.HasPrefix(t, "internal/") {
-				tops = append(tops, t)
-				want = false
-			}
-		}
-		harnessOnly := len(tops) > 0
-		for _, tp := range tops {
-			if !strings.Contains(tp, "/zverif/") {
-				harnessOnly = false
-			}
-		}
-		if harnessOnly {
-			ignored++
-			continue
-		}
-		var frames []string
-		for _, l := range strings.Split(rep, "\n") {
-			l = strings.TrimSpace(l)
-			if strings.HasPrefix(l, "github.com/synnaxlabs/") && strings.Contains(l, "(") {
-				f := l[:strings.Index(l, "(")]
-				f = f[strings.LastIndex(f, "/")+1:]
-				if len(frames) < 2 && (len(frames) == 0 || frames[0] != f) {
-					frames = append(frames, f)
-				}
-			}
-		}
-		v := vk.Violationf("data-race:"+strings.Join(frames, "|"), "the race detector reports:%s", rep[:min(len(rep), 1800)])
-		v.Scenario, v.Trace = "free-running -race pass", []string{"go test -race (see detail)"}
-		r.Report(v)
-	}
-	r.Set("race_reports_between_harness_accesses_ignored", ignored)
-}
+func foldRace(r *vk.Run) { vk.FoldRace(r, "/zverif/") }
 
 type viol struct {
 	v       *vk.Violation
